@@ -33,7 +33,27 @@ def make_model(seed, tier):
     knobs = gen.Knobs(items=r.choice([3, 4, 5]), members=r.choice([2, 4]), ns_depth=r.choice([1, 2, 3]), inst_len=3)
     g = gen.WildGen(seed, knobs, multiline_defaults=False, typedefs=True, typedef_same_ns=True, param_use=0.3, this_use=0.05,
                     class_template_p=0.4, includes=False)
-    return g.module()
+    mod = g.module()
+    if r.random() < 0.4:
+        mod = add_namesake(mod, r)
+    return mod
+
+
+def add_namesake(mod, r):
+    """a second class with the name of an existing one, declared in another namespace (ignoring one must not
+    touch its namesake)"""
+    classes = [(p, it) for p, it in S.walk_items(mod.items) if it.k == 'Class' and not it.template]
+    if not classes:
+        return mod
+    path, c = r.choice(classes)
+    # the namesake is non-virtual and has no class-scoped enums: up-cast routines are named by the bare class name and
+    # the pybind instance variable of a class with enums is its lower-cased bare name (two such classes clash: D44)
+    twin = S.Class(c.name, tuple(m for m in c.members if m.k in ('Method', 'Static', 'Prop'))[:3], None, False, None)
+    if c.virtual or any(m.k == 'Enum' for m in c.members):
+        return mod
+    if path:
+        return S.Module(mod.items + (twin,)) if not any(it.k == 'Class' and it.name == c.name for it in mod.items) else mod
+    return S.Module(mod.items + (S.Namespace('twin%d' % r.randint(0, 99), (twin,)),))
 
 
 def candidates(mod):
